@@ -13,6 +13,7 @@ answers for an explicit allow-list of names:
                                     via qllex + Python LR driver)
     edb.common.turbo_uuid        -> stubs/turbo_uuid.py
     edb.pgsql.parser.parser      -> stubs/pgsql_parser.py (raises if called)
+    edb._buildmeta               -> stubs/buildmeta_data.py (VERSION only)
     setproctitle, uvloop         -> stubs/setproctitle.py, stubs/uvloop.py
 
   lenient placeholders (import-only; attribute access yields placeholder
@@ -63,6 +64,7 @@ FILE_STUBS = {
     'edb._edgeql_parser': STUBS_DIR / 'edgeql_parser.py',
     'edb.common.turbo_uuid': STUBS_DIR / 'turbo_uuid.py',
     'edb.pgsql.parser.parser': STUBS_DIR / 'pgsql_parser.py',
+    'edb._buildmeta': STUBS_DIR / 'buildmeta_data.py',
     'setproctitle': STUBS_DIR / 'setproctitle.py',
     'uvloop': STUBS_DIR / 'uvloop.py',
 }
@@ -235,3 +237,262 @@ def is_installed() -> bool:
 
 def served_modules() -> list:
     return list(_finder.served) if _finder else []
+
+
+# --------------------------------------------------------------------------
+# loading upstream test modules (tests/*.py of /repo)
+# --------------------------------------------------------------------------
+
+def _ensure_tools_test_shim() -> None:
+    """`edb.tools.test` (imported by every upstream test module for its
+    xfail/xerror/not_implemented decorators) drags in the server test
+    machinery (`edb.testbase.server`, the `edgedb` client, ...), which does
+    not import here.  Provide a module of that name which exposes the REAL
+    decorators (edb/tools/test/decorators.py loaded by path) and nothing
+    else."""
+    if 'edb.tools.test' in sys.modules:
+        return
+    try:
+        importlib.import_module('edb.tools.test')
+        return
+    except Exception:
+        for k in [k for k in sys.modules
+                  if k == 'edb.tools.test' or k.startswith('edb.tools.test.')]:
+            del sys.modules[k]
+    import edb.tools  # noqa: F401  (the package itself is importable)
+    pkg_dir = REPO / 'edb' / 'tools' / 'test'
+    shim = types.ModuleType('edb.tools.test')
+    shim.__path__ = []  # no submodules other than the one registered below
+    shim.__vrt_stub__ = True
+    shim.__doc__ = 'vrt shim: only the decorators of edb.tools.test'
+    spec = importlib.util.spec_from_file_location(
+        'edb.tools.test.decorators', pkg_dir / 'decorators.py')
+    dec = importlib.util.module_from_spec(spec)
+    sys.modules['edb.tools.test.decorators'] = dec
+    spec.loader.exec_module(dec)
+    for name in ('xfail', 'xerror', 'not_implemented', 'skip',
+                 'async_timeout', '_xfail'):
+        if hasattr(dec, name):
+            setattr(shim, name, getattr(dec, name))
+    shim.decorators = dec
+    sys.modules['edb.tools.test'] = shim
+    sys.modules['edb.tools'].test = shim
+
+
+def import_test_module(path) -> types.ModuleType:
+    """Import an upstream test module (e.g. /repo/tests/test_schema.py) by
+    file path under the substrate."""
+    install()
+    _ensure_tools_test_shim()
+    path = pathlib.Path(path)
+    name = f'vrt_upstream_tests.{path.stem}'
+    if name in sys.modules:
+        return sys.modules[name]
+    spec = importlib.util.spec_from_file_location(name, path)
+    mod = importlib.util.module_from_spec(spec)
+    sys.modules[name] = mod
+    try:
+        spec.loader.exec_module(mod)
+    except BaseException:
+        del sys.modules[name]
+        raise
+    return mod
+
+
+# --------------------------------------------------------------------------
+# Stage 4: std schema, SDL loading, query compilation
+# --------------------------------------------------------------------------
+
+_std_schema = None
+_refl = None
+
+# Directories (relative to /repo) whose content determines the std schema.
+STD_SCHEMA_SRC = (
+    ('edb/lib', ('.edgeql',)),
+    ('edb/schema', ('.py',)),
+    ('edb/edgeql', ('.py',)),
+    ('edb/ir', ('.py',)),
+    ('edb/common', ('.py',)),
+    # the lexer the substitute parser is built from
+    ('edb/edgeql-parser/src', ('.rs',)),
+)
+
+
+def _hash_tree(h, base: pathlib.Path, suffixes) -> None:
+    files = sorted(
+        p for p in base.rglob('*')
+        if p.is_file() and p.suffix in suffixes)
+    for p in files:
+        h.update(str(p.relative_to(base)).encode())
+        h.update(b'\0')
+        h.update(p.read_bytes())
+        h.update(b'\0')
+
+
+def std_schema_key() -> str:
+    import hashlib
+    h = hashlib.sha256()
+    h.update(b'vrt-std-schema-1\0')
+    h.update(sys.version.encode())
+    for rel, suffixes in STD_SCHEMA_SRC:
+        h.update(rel.encode() + b'\0')
+        _hash_tree(h, REPO / rel, suffixes)
+    # the substitute parser itself
+    for p in sorted(STUBS_DIR.rglob('*.py')) + [RT_DIR / 'lrgen.py',
+                                                RT_DIR / 'qllex.py']:
+        h.update(p.name.encode() + b'\0' + p.read_bytes())
+    return h.hexdigest()
+
+
+def build_std_schema(verbose: bool = False):
+    """The same steps as edb/testbase/lang.py::_load_std_schema (all
+    STD_SOURCES + TESTMODE_SOURCES, then the schema version objects)."""
+    install()
+    import time
+    from edb.schema import schema as s_schema
+    from edb.schema import std as s_std
+
+    schema = s_schema.EMPTY_SCHEMA
+    for modname in [*s_schema.STD_SOURCES, *s_schema.TESTMODE_SOURCES]:
+        t0 = time.time()
+        schema = s_std.load_std_module(schema, modname)
+        if verbose:
+            print(f'[vrt] std module {modname}: {time.time() - t0:.1f}s',
+                  file=sys.stderr, flush=True)
+    schema, _ = s_std.make_schema_version(schema)
+    schema, _ = s_std.make_global_schema_version(schema)
+    return schema
+
+
+def _cache_load(path: pathlib.Path):
+    import pickle
+    try:
+        with open(path, 'rb') as f:
+            return pickle.load(f)
+    except FileNotFoundError:
+        return None
+    except Exception as e:  # corrupted / stale class layout
+        print(f'[vrt] ignoring unreadable cache {path}: {e!r}',
+              file=sys.stderr)
+        return None
+
+
+def _cache_store(path: pathlib.Path, obj) -> None:
+    import pickle
+    path.parent.mkdir(parents=True, exist_ok=True)
+    tmp = path.with_suffix(f'.tmp{os.getpid()}')
+    with open(tmp, 'wb') as f:
+        pickle.dump(obj, f, protocol=pickle.HIGHEST_PROTOCOL)
+    os.replace(tmp, path)
+
+
+def std_schema(*, rebuild: bool = False, verbose: bool = False):
+    """The standard-library schema (std, schema, math, sys, cfg, cal, ext,
+    enc, pg, fts, net + _testmode), built by the REAL DDL machinery from
+    edb/lib/**/*.edgeql parsed with the substitute parser.
+
+    Cached as /verif/cache/stdschema-<key>.pickle (see std_schema_key());
+    building takes ~10 s, loading ~0.3 s.  The returned object is immutable
+    (edb schemas are persistent data structures), so it is shared."""
+    global _std_schema
+    install()
+    if _std_schema is not None and not rebuild:
+        return _std_schema
+    path = CACHE_DIR / f'stdschema-{std_schema_key()}.pickle'
+    schema = None if rebuild else _cache_load(path)
+    if schema is None:
+        schema = build_std_schema(verbose=verbose)
+        _cache_store(path, schema)
+    _std_schema = schema
+    return schema
+
+
+def reflection_schema(*, rebuild: bool = False):
+    """(reflection schema, schema class layout) as computed by
+    edb/testbase/lang.py::_load_reflection_schema; cached next to the std
+    schema."""
+    global _refl
+    install()
+    if _refl is not None and not rebuild:
+        return _refl
+    path = CACHE_DIR / f'reflschema-{std_schema_key()}.pickle'
+    cached = None if rebuild else _cache_load(path)
+    if cached is None:
+        from edb.schema import reflection as s_refl
+        from edb.schema import delta as sd
+        std = std_schema()
+        reflection = s_refl.generate_structure(std)
+        context = sd.CommandContext(stdmode=True)
+        reflschema = reflection.intro_schema_delta.apply(std, context)
+        cached = (reflschema, reflection.class_layout)
+        _cache_store(path, cached)
+    _refl = cached
+    return cached
+
+
+def prime_testbase() -> None:
+    """Make upstream's edb.testbase.lang use the cached std schema instead of
+    rebuilding it (it keeps the schema in module globals)."""
+    install()
+    from edb.testbase import lang
+    lang._std_schema = std_schema()
+
+
+def load_sdl(std, sdl_text: str, modname: str = 'default'):
+    """User schema from SDL, exactly like
+    edb/testbase/lang.py::BaseSchemaTest.load_schema:
+    parse_sdl('module <modname> { <sdl_text> }') then s_ddl.apply_sdl(...,
+    base_schema=std, current_schema=std).  Pass modname=None if `sdl_text`
+    already contains its own `module ... { }` blocks."""
+    install()
+    from edb.edgeql import parser as qlparser
+    from edb.schema import ddl as s_ddl
+    if modname:
+        text = f'module {modname} {{ {sdl_text} }}'
+    else:
+        text = sdl_text
+    sdl_schema = qlparser.parse_sdl(text)
+    return s_ddl.apply_sdl(
+        sdl_schema, base_schema=std, current_schema=std)[0]
+
+
+def migrate_to_sdl(std, sdl_by_module: dict, *, base=None):
+    """User schema through the migration path used by
+    BaseSchemaTest.setUpClass / BaseEdgeQLCompilerTest (START MIGRATION TO
+    {...}; POPULATE MIGRATION; COMMIT MIGRATION), via the REAL
+    BaseSchemaTest.run_ddl.  `sdl_by_module` maps module name -> SDL text."""
+    install()
+    prime_testbase()
+    from edb.testbase import lang
+    mods = ''.join(
+        f'\nmodule {name} {{ {text} }}'
+        for name, text in sdl_by_module.items())
+    script = (f'START MIGRATION TO {{ {mods} }};\n'
+              f'POPULATE MIGRATION;\nCOMMIT MIGRATION;')
+    return lang.BaseSchemaTest.run_ddl(
+        base if base is not None else std, script)
+
+
+def run_ddl(schema, ddl_text: str, default_module: str = 'default'):
+    """Apply a DDL script (BaseSchemaTest.run_ddl)."""
+    install()
+    prime_testbase()
+    from edb.testbase import lang
+    return lang.BaseSchemaTest.run_ddl(
+        schema, ddl_text, default_module=default_module)
+
+
+def compile_query(schema, text: str, *, modaliases=None, **options):
+    """EdgeQL text -> IR: qlparser.parse_query + compile_ast_to_ir with
+    CompilerOptions(modaliases={None: 'default'}, **options) -- the same call
+    the tests/test_edgeql_ir_*.py suites make."""
+    install()
+    from edb.edgeql import compiler as qlcompiler
+    from edb.edgeql import parser as qlparser
+    if modaliases is None:
+        modaliases = {None: 'default'}
+    qltree = qlparser.parse_query(text)
+    return qlcompiler.compile_ast_to_ir(
+        qltree, schema,
+        options=qlcompiler.CompilerOptions(modaliases=modaliases, **options),
+    )
